@@ -86,13 +86,14 @@ func (l *BatchLimit) Process(_ context.Context, b *vectorized.RecordBatch) error
 		l.rowsIn += int64(len(active))
 	}
 	out := make([]uint16, 0, len(active))
-	end := l.offset + l.limit
+	// 64-bit: offset+limit exceeds 32 bits for limit=MaxUint32 with any offset.
+	end := uint64(l.offset) + uint64(l.limit)
 	for _, idx := range active {
-		if l.seen >= l.offset && l.seen < end {
+		if l.seen >= l.offset && uint64(l.seen) < end {
 			out = append(out, idx)
 		}
 		l.seen++
-		if l.seen >= end {
+		if uint64(l.seen) >= end {
 			b.Selection = out
 			if l.span != nil {
 				l.rowsOut += int64(len(out))
